@@ -140,12 +140,16 @@ func SelfTest(c *Ctx, p *Property) {
 // no evidence is written). Returns the reports per property.
 func TryPatch(patch string, props []string) map[string][]string {
 	out := map[string][]string{}
-	ov, err := overlayFor(patch)
-	if err != nil {
-		for _, pr := range props {
-			out[pr] = []string{"overlay: " + err.Error()}
+	var ov map[string][]byte
+	if patch != "-" { // "-": the working tree as it is (a change applied with git apply)
+		var err error
+		ov, err = overlayFor(patch)
+		if err != nil {
+			for _, pr := range props {
+				out[pr] = []string{"overlay: " + err.Error()}
+			}
+			return out
 		}
-		return out
 	}
 	shared := map[string]*core.Prog{}
 	for _, pr := range props {
